@@ -236,6 +236,9 @@ class SymArr:
     def __truediv__(self, o):
         return self._bin(o, lambda x, y: x / y)
 
+    def __rtruediv__(self, o):
+        return self._bin(o, lambda x, y: y / x)
+
     def __neg__(self):
         return SymArr(self.shape, [-x for x in self.flat])
 
@@ -460,6 +463,16 @@ def np_summaries():
     def outer(a, b):
         a, b = SymArr.of(a).flatten(), SymArr.of(b).flatten()
         return SymArr((a.size, b.size), [x * y for x in a.flat for y in b.flat])
+    def elementwise(fn):
+        def g(a):
+            if isinstance(a, SymArr):
+                return SymArr(a.shape, [fn(x) for x in a.flat])
+            if isinstance(a, (list, tuple)):
+                return g(SymArr.of(a))
+            return fn(A.lift(a))
+        return g
+    d0 = {"np.log": elementwise(A.log), "np.exp": elementwise(A.exp), "np.sqrt": elementwise(A.sqrt), "gammaln": elementwise(A.lgamma),
+          "scipy.special.gammaln": elementwise(A.lgamma), "np.abs": elementwise(lambda x: x)}
     d = {
         "np.repeat": repeat, "np.tile": tile, "np.concatenate": concatenate, "np.hstack": lambda seq: concatenate(seq, 1),
         "np.vstack": lambda seq: bmat([[_as2d(x)] for x in seq]), "np.stack": lambda seq, axis=0: SymArr.of([SymArr.of(x).tolist() for x in seq]),
@@ -476,4 +489,5 @@ def np_summaries():
         "scipy.sparse.kron": kron, "scipy.sparse.eye": lambda n, *a, **k: SymArr.eye(n), "scipy.linalg.block_diag": block_diag,
         "np.column_stack": lambda t: SymArr.of([SymArr.of(c).tolist() for c in t]).T,
     }
+    d.update(d0)
     return d
